@@ -112,6 +112,17 @@ def gen_programs(ctx):
             progs.append([(";", 7, "m0"), (";", "bg", "m1"), (op, ("slow", n), "m2"), (op, 0, "m3"), (";", None, "m4")])
         progs.append([(";", "bg", "m0"), (";", "bg", "m1"), (";", ("slow", n), "m2"), ("&&", 0, "m3"), ("||", None, "m4")])
         progs.append([(";", "bg", "m0"), (";", ("slow", 0), "m1"), ("&&", ("slow", n), "m2"), ("||", None, "m3")])
+    # every exit status 0..255 (deaths by a signal are C02's subject) in a position that is followed by more of the list:
+    # whatever the number, `;` runs the next element, `||` runs it iff the status is non-zero, `&&` iff zero, and $? /
+    # the final status carry it (seed C03-status-130-ends-the-list: one particular status ended the whole list)
+    shapes = [lambda s: [(";", s, "m0"), (";", None, "m1")],
+              lambda s: [(";", s, "m0"), ("||", None, "m1"), ("&&", 0, "m2"), (";", None, "m3")],
+              lambda s: [(";", s, "m0"), ("&&", None, "m1"), (";", None, "m2")],
+              lambda s: [(";", 0, "m0"), ("&&", s, "m1"), ("||", 3, "m2"), (";", None, "m3")]]
+    for s in range(256):
+        for j, sh in enumerate(shapes):
+            if ctx.thorough or j == s % len(shapes) or s in (126, 127, 128, 129, 130, 131, 137, 141, 143, 255):
+                progs.append(sh(s))
     nrand = 600 if ctx.thorough else 120
     for _ in range(nrand):
         k = rng.randint(2, 12)
